@@ -122,6 +122,9 @@ def run(chk, F, tier, pairs, tabs, info):
                 if s["k"] == "assign" and s["rv"]["k"] == "binop" and s["rv"]["op"] in ("Lt", "Le", "Gt", "Ge", "Eq", "Ne"):
                     cmps[s["place"]["l"]] = (s["rv"]["op"], T.of_operand(s["rv"]["a"]), T.of_operand(s["rv"]["b"]), s.get("span"), bi)
         for l, (op, a, b2, sp, bi) in cmps.items():
+            # `b > a` is the comparison `a < b` written the other way round (same value, same NaN behaviour): classify the mirrored form
+            if op in ("Gt", "Ge"):
+                op, a, b2 = {"Gt": "Lt", "Ge": "Le"}[op], b2, a
             fa, fb = fmt(a), fmt(b2)
             if op in ("Lt", "Le") and "x_tab[" in fb and "+ 1" in fb and "f_tab" not in fa:
                 rect = (op, a, b2, sp)
